@@ -451,3 +451,15 @@ mod tests {
   }
 }
 
+
+// Verification hooks (no behaviour change); compiled only with --cfg ellbur_totalmapper_verif
+#[cfg(ellbur_totalmapper_verif)]
+pub mod verif {
+  pub fn build_service_text<'s, I: Iterator<Item = &'s str>>(excludes: I) -> String {
+    super::build_service_text(excludes)
+  }
+  
+  pub fn escape_one_char(c: char) -> String {
+    super::escape_one_char(c)
+  }
+}
